@@ -7,6 +7,7 @@ import CG.Tx3
 import CG.Spec
 import CG.Props.C06
 import CG.Proofs.Unroll
+import CG.Proofs.UnrollSeqSem
 namespace CG.C09
 
 /-- the circuits the statement ranges over: lint-clean and blackbox-free -/
@@ -166,6 +167,100 @@ theorem sequential_unroll_reduces (c : Circuit) (n : Nat) (dPort qPort : Name) (
       injection hs with hs
       subst hs
       exact b4 p.1 (List.mem_map.2 ⟨p, hp, rfl⟩)
+
+/-! ### sequential_unroll: cycle-accurate semantics -/
+
+/-- the sequential circuits the statement ranges over: lint-clean, at least one flop, all instances of one blackbox type
+    having the data pins, every instance with all its pin nodes (typed as pins), and every pin-typed node belonging to
+    an instance.
+    Two fields were ADDED because the theorems below are false without them (counterexamples in
+    `CG/Proofs/UnrollSeqSemCex.lean`):
+    `outsOrdinary` — no pin node is marked as output (a pin has no entry in the io map, so `ioName ioMap o t` would be
+      the empty name, which the unrolled circuit does not constrain);
+    `noClash` — no node of `c` carries an exposed pin name `inst_pin`: `sequential_unroll` deletes the non-data pins by
+      those names *after* stripping, so with `ignore_pins = ["clk"]` an unrelated node called `f_clk` is deleted from the
+      logic (and with ignored data pins unrelated nodes `f_d`, `f_q` would be wired up as the flop) -/
+structure SeqGood (c : Circuit) (bb : BBox) (dPort qPort : Name) : Prop where
+  clean : LintClean c
+  nonempty : c.bbs ≠ []
+  oneType : ∀ u ∈ c.bbs, u.2 = bb
+  instNodup : (c.bbs.map (·.1)).Nodup
+  dIn : dPort ∈ bb.ins
+  qOut : qPort ∈ bb.outs
+  pinsPresent : ∀ u ∈ c.bbs, (∀ g ∈ bb.ins, c.ty? (u.1 ++ "." ++ g) = some "bb_input") ∧
+    (∀ g ∈ bb.outs, c.ty? (u.1 ++ "." ++ g) = some "bb_output")
+  pinsOwned : ∀ x, (c.ty? x = some "bb_input" ∨ c.ty? x = some "bb_output") →
+    ∃ u ∈ c.bbs, ∃ g ∈ bb.ins ++ bb.outs, x = u.1 ++ "." ++ g
+  outsOrdinary : ∀ o ∈ c.outputs, C06.isPin c o = false
+  noClash : ∀ u ∈ c.bbs, ∀ g ∈ bb.ins ++ bb.outs, c.has (u.1 ++ "_" ++ g) = false
+
+/-- glue: the helper lemmas of `CG/Proofs/UnrollSeqSem*.lean` are stated for mirrored copies of the vocabulary above -/
+theorem SeqGood.toHelper {c : Circuit} {bb : BBox} {dPort qPort : Name} (hc : SeqGood c bb dPort qPort) :
+    USS.SeqGood' c bb dPort qPort :=
+  ⟨hc.clean, hc.oneType, hc.instNodup, hc.dIn, hc.qOut, hc.pinsPresent, hc.outsOrdinary, hc.noClash⟩
+
+/-- a run of the sequential circuit over `n` cycles: one consistent valuation of `c` per cycle (flop outputs are free
+    within a cycle), each flop's q pin at cycle t+1 carrying the value its d pin had at cycle t -/
+def SeqRun (c : Circuit) (dPort qPort : Name) (n : Nat) (w : Nat → Val) : Prop :=
+  (∀ t, t < n → Consistent c (w t)) ∧
+  (∀ t, t + 1 < n → ∀ u ∈ c.bbs, w (t + 1) (u.1 ++ "." ++ qPort) = w t (u.1 ++ "." ++ dPort))
+
+/-- **C09 (sequential_unroll, soundness).** every consistent valuation of the unrolled circuit is a cycle-accurate run of
+    the sequential circuit: there is a run `w` such that the io map names, for every original output `o` and cycle `t`, a
+    node carrying `w t o`, the exposed flop data node of cycle `t` carries the d pin's value, and with a string initial
+    value every flop starts at that value — for every choice of add_flop_outputs, ignore_pins, remove_unloaded and every
+    set-iteration order.
+    `hig` (ADDED): the data pins are not among the ignored pins; otherwise another pin whose exposed name happens to be
+    `inst_d` is taken for the data pin (counterexample in `CG/Proofs/UnrollSeqSemCex.lean`) -/
+theorem sequential_unroll_sem (c : Circuit) (bb : BBox) (n : Nat) (dPort qPort : Name) (ignore : List Name) (afo : Bool)
+    (initStr : Option String) (ru : Bool) (pfx : String) (ord : Ord) (hord : OrdOK ord)
+    (hc : SeqGood c bb dPort qPort) (hig : dPort ∉ ignore ∧ qPort ∉ ignore)
+    (hinit : ∀ s, initStr = some s → s = "0" ∨ s = "1")
+    (uc : Circuit) (ioMap : List (Name × List Name))
+    (h : Tx.sequentialUnroll c n dPort qPort ignore afo initStr [] ru pfx ord = .ok (uc, ioMap))
+    (v : Val) (hv : Consistent uc v) :
+    ∃ w, SeqRun c dPort qPort n w ∧
+      (∀ o ∈ c.outputs, ∀ t, t < n → v (Tx.ioName ioMap o t) = w t o) ∧
+      (∀ u ∈ c.bbs, ∀ t, t < n → v (Tx.ioName ioMap (u.1 ++ "_" ++ dPort) t) = w t (u.1 ++ "." ++ dPort)) ∧
+      (∀ s, initStr = some s → ∀ u ∈ c.bbs, w 0 (u.1 ++ "." ++ qPort) = (s == "1")) :=
+  USS.seq_sound c bb n dPort qPort ignore afo initStr ru pfx ord hord hc.toHelper hig hinit uc ioMap h v hv
+
+/-- **C09 (sequential_unroll, completeness).** conversely every run (starting from the given initial value when there is
+    one) is realised by a consistent valuation of the unrolled circuit that shows it at the io map's nodes -/
+theorem sequential_unroll_complete (c : Circuit) (bb : BBox) (n : Nat) (dPort qPort : Name) (ignore : List Name) (afo : Bool)
+    (initStr : Option String) (ru : Bool) (pfx : String) (ord : Ord) (hord : OrdOK ord)
+    (hc : SeqGood c bb dPort qPort) (hig : dPort ∉ ignore ∧ qPort ∉ ignore)
+    (hinit : ∀ s, initStr = some s → s = "0" ∨ s = "1")
+    (uc : Circuit) (ioMap : List (Name × List Name))
+    (h : Tx.sequentialUnroll c n dPort qPort ignore afo initStr [] ru pfx ord = .ok (uc, ioMap))
+    (w : Nat → Val) (hw : SeqRun c dPort qPort n w)
+    (hw0 : ∀ s, initStr = some s → ∀ u ∈ c.bbs, w 0 (u.1 ++ "." ++ qPort) = (s == "1")) :
+    ∃ v, Consistent uc v ∧
+      (∀ o ∈ c.outputs, ∀ t, t < n → v (Tx.ioName ioMap o t) = w t o) ∧
+      (∀ u ∈ c.bbs, ∀ t, t < n → v (Tx.ioName ioMap (u.1 ++ "_" ++ dPort) t) = w t (u.1 ++ "." ++ dPort)) :=
+  USS.seq_complete c bb n dPort qPort ignore afo initStr ru pfx ord hord hc.toHelper hig hinit uc ioMap h w hw hw0
+
+/-- non-vacuity: a toggle flop (`q <- q xor en`), unrolled for two cycles from initial value 0 -/
+def togSeq : Circuit :=
+  { nodes := [("en", { ty := some "input", out := some false }), ("clk", { ty := some "input", out := some false }),
+              ("f.clk", { ty := some "bb_input", out := some false }), ("f.d", { ty := some "bb_input", out := some false }),
+              ("f.q", { ty := some "bb_output", out := some false }), ("q", { ty := some "buf", out := some true }),
+              ("nx", { ty := some "xor", out := some false })],
+    edges := [("clk", "f.clk"), ("f.q", "q"), ("q", "nx"), ("en", "nx"), ("nx", "f.d")],
+    bbs := [("f", { name := "ff", ins := ["clk", "d"], outs := ["q"] })] }
+example : (Tx.sequentialUnroll togSeq 2 "d" "q" ["clk"] false (some "0") [] true "cg_unroll" id).toOption.map
+    (fun r => (r.1.nodes.length, r.1.inputs, r.1.outputs)) =
+    some (18, ["en_cg_unroll_0", "en_cg_unroll_1"], ["q_cg_unroll_0", "q_cg_unroll_1"]) := by decide +kernel
+example : SeqGood togSeq { name := "ff", ins := ["clk", "d"], outs := ["q"] } "d" "q" := by
+  refine ⟨Limit.lintClean_of_checks togSeq ⟨by decide, by decide, by decide⟩ (by decide) (by decide) (by decide),
+    by decide, by decide, by decide, by decide, by decide, by decide, ?_, by decide, by decide⟩
+  intro x hx
+  have hm : x ∈ togSeq.nodeNames := by
+    rcases hx with hx | hx <;> exact (Circuit.has_iff_mem _ _).1 (Circuit.has_of_ty? hx)
+  revert hx
+  revert x
+  decide
+
 
 /-! non-vacuity: a toggling flip-flop loop unrolled twice -/
 def tog : Circuit :=
